@@ -48,6 +48,9 @@ OPTIONS = {
     "extra_builtins(names)": ("<p>${ab | 'no-ab'} ${c | 'no-c'} ${a | 'no-a'} ${bc | 'no-bc'} ${abc | 'no-abc'}</p>", {}, "ab|c", "a|bc"),
     # the same names bound to other values: the entry may be shared, the values may not
     "extra_builtins(values)": ("<p>${site} ${shout('Ab')}</p>", {}, "alpha", "beta"),
+    # the same names registered in another order (a dictionary built from a set of names): same entry or not, every name
+    # keeps its own value
+    "extra_builtins(names in another order)": ("<p>${a} ${b} ${c | 'no-c'}</p>", {}, "a|b|c", "c|a|b"),
     "extra_builtins(names 2)": ("<p>${ab | 'no-ab'} ${c | 'no-c'} ${a | 'no-a'} ${bc | 'no-bc'} ${abc | 'no-abc'}</p>", {}, "abc", "a|bc"),
 }
 
@@ -98,7 +101,7 @@ def _pair(args):
     rc, base, err = run_driver(None, {"cases": [a, b]})
     if len(base) != 2:
         return 0, [("machinery: uncached reference render failed for %s: %s" % (name, err), {})]
-    if base[0] == base[1]:
+    if base[0] == base[1] and "another order" not in name:     # (configurations that must NOT matter render alike, of course)
         return 0, [("machinery: the two configurations of %s render alike without a cache (%s)" % (name, base[0]), {})]
     for order in ((0, 1), (1, 0)):
         cases = [a, b]
